@@ -734,11 +734,14 @@ func genLoose(rng *rand.Rand, depth int) string {
 
 func looseTerm(rng *rand.Rand, depth int) string {
 	names := []string{"a", "b", "s", "name", "flag", "nul", "tags", "nums", "o", "o.x", "o.z.w", "items", "absent", "tags[0]", "nums[1]", "items[0].price", "tags.length", "o.missing", "absent.deep", "tags[7]"}
-	k := rng.Intn(13)
-	if depth <= 0 && k >= 9 {
+	k := rng.Intn(14)
+	if depth <= 0 && k >= 9 && k != 13 {
 		k = rng.Intn(9)
 	}
 	switch k {
+	case 13: // an array element addressed by a fractional, negative or far index (the index is rounded)
+		return []string{"tags", "nums", "items", "o", "s"}[rng.Intn(5)] + "[" +
+			[]string{"0", "1", "2", "0.5", "1.5", "2.5", "3.5", "0.4", "1.6", "2.75", "3.75", "-0.5", "-0.4", "-1", "1e0", "99", "1e300", "-1e300"}[rng.Intn(18)] + "]"
 	case 0, 1, 2:
 		return names[rng.Intn(len(names))]
 	case 3:
@@ -862,13 +865,32 @@ func queryC15(o *Opts) {
 	drv := StartDriver()
 	defer drv.Close()
 	rd := &renderer{rng: rng}
-	junk := []string{"1", "'x'", "foo", "and", "or", "not", "b == 2", "true", "null", ")", "]", "=", "!", "x y", "42 43", "a.b", ",", "'unterminated", "AND", "OR", "IN", "$", "#"}
+	junk := []string{"1", "'x'", "foo", "and", "or", "not", "b == 2", "true", "null", ")", "]", "=", "!", "x y", "42 43", "a.b", ",", "'unterminated", "AND", "OR", "IN", "$", "#",
+		// keyword and punctuation tokens that start something the parser might swallow and then drop
+		"NOT", "NOT NOT", "not in", "DOES", "DOES NOT", "NOT AND c == 1", "NOT OR c == 1", "NOT )", ":p", "[", "(", "LENGTH", "CONTAINS", "NOT CONTAINS 'x'", "==", "7 AND a == 1", "'x' OR a == 1", "NOT 1", ") AND a == 1", "] OR a == 1", ", a == 1"}
+	// complete expressions that end in each kind of token (identifier, path, literals, closers, keywords)
+	tails := []string{"a == b", "flag", "a == o.y", "s == tags[0]", "s == 'q'", "a == 1", "flag == true", "nul == null", "a IN [1, 2]", "a NOT IN [1]", "a EXISTS", "a DOES NOT EXIST",
+		"(a == 1)", "NOT flag", "LENGTH(tags) == 2", "a == :p", "s CONTAINS s"}
 	for i := 0; i < n; i++ {
 		A := genExpr(rng, 1+rng.Intn(3))
 		B := genExpr(rng, 1+rng.Intn(3))
 		docv := genDoc(rng)
 		md, _ := json.Marshal(docv)
 		ta, tb := rd.expr(A, 0), rd.expr(B, 0)
+		switch rng.Intn(4) {
+		case 0:
+			ta = tails[rng.Intn(len(tails))]
+		case 1:
+			ta = rd.expr(A, 2) + " AND " + tails[rng.Intn(len(tails))]
+		}
+		// an identifier followed by "(" is a function call and "[" an index: `a == b (c == 1)` is one
+		// expression, not two. Keep A's last token a literal in that case.
+		if t := strings.TrimLeft(tb, " \t\r\n"); strings.HasPrefix(t, "(") || strings.HasPrefix(t, "[") {
+			last := ta[len(ta)-1]
+			if last != ')' && last != ']' && last != '\'' && !(last >= '0' && last <= '9') {
+				ta = ta + " AND a == 1"
+			}
+		}
 		var text, kind string
 		switch rng.Intn(4) {
 		case 0:
